@@ -145,7 +145,7 @@ theorem align_pos (m : Mode) : ∀ t : Ty, wf t = true → 0 < align m t
   | .vec s n, h => by
     simp only [wf, Bool.and_eq_true, decide_eq_true_eq] at h
     simpa [align] using vecAlign_pos h.1 h.2.1
-  | .arr t n, h => by simp only [wf] at h; simpa [align] using align_pos m t h
+  | .arr t n, h => by simp only [wf, Bool.and_eq_true, decide_eq_true_eq] at h; replace h := h.2; simpa [align] using align_pos m t h
   | .struct ms, _ => by simp only [align]; exact alignMax_pos m ms
   | .enum u, h => by
     simp only [wf] at h
@@ -207,7 +207,7 @@ theorem get_spec (m : Mode) : ∀ (t : Ty) (l : Layout), wf t = true → noInner
     rw [get_enum m u hw] at h; cases h; exact ⟨rfl, rfl⟩
   | .other _, _, hw, _, _ => by simp [wf] at hw
   | .arr t n, l, hw, hc, h => by
-    simp only [wf] at hw
+    simp only [wf, Bool.and_eq_true, decide_eq_true_eq] at hw; replace hw := hw.2
     simp only [noInnerTailPad] at hc
     simp only [Model.Layout.get] at h
     split at h
@@ -287,7 +287,7 @@ theorem leaf_le_size (m : Mode) : ∀ t : Ty, wf t = true → leaf t ≤ size m 
     · simp only [leaf, size, vecSize]
       exact Nat.mul_le_mul_right _ (metalLanes_ge n)
   | .arr t n, h => by
-    simp only [wf] at h
+    simp only [wf, Bool.and_eq_true, decide_eq_true_eq] at h; replace h := h.2
     simp only [leaf, size]
     exact Nat.mul_le_mul_left _ (Nat.le_trans (leaf_le_size m t h) (le_roundUp (align_pos m t h)))
   | .struct ms, h => by
@@ -317,7 +317,7 @@ theorem dense_agree : ∀ t : Ty, wf t = true → size .hlsl t = leaf t → size
   | .other _, _, _, _ => rfl
   | .vec _ _, _, _, _ => rfl
   | .arr t n, hw, hh, hm => by
-    simp only [wf] at hw
+    simp only [wf, Bool.and_eq_true, decide_eq_true_eq] at hw; replace hw := hw.2
     simp only [size, leaf] at hh hm
     simp only [agreeIn, Bool.or_eq_true, Bool.and_eq_true, beq_iff_eq, decide_eq_true_eq]
     by_cases hn : n = 0
@@ -482,5 +482,229 @@ theorem closedAll_of_flat (m : Mode) : ∀ ts : Tys, flat ts = true → closedAl
   | .cons (.arr _ _) _, h => by simp [flat] at h
   | .cons (.struct _) _, h => by simp [flat] at h
   | .cons (.other _) _, h => by simp [flat] at h
+
+theorem noInner_of_closed (m : Mode) : ∀ t : Ty, closed m t = true → noInnerTailPad m t = true
+  | .scalar _, _ => rfl
+  | .vec _ _, _ => rfl
+  | .enum _, _ => rfl
+  | .other _, _ => rfl
+  | .arr _ _, h => by simpa [closed, noInnerTailPad] using h
+  | .struct _, h => by
+    simp only [closed, Bool.and_eq_true] at h
+    simpa [noInnerTailPad] using h.2
+
+mutual
+/-- a padding-free layout needs no tail padding anywhere -/
+theorem dense_closed (m : Mode) : ∀ t : Ty, wf t = true → size m t = leaf t → closed m t = true
+  | .scalar _, _, _ => rfl
+  | .vec _ _, _, _ => rfl
+  | .enum _, _, _ => rfl
+  | .other _, _, _ => rfl
+  | .arr t n, hw, hd => by
+    simp only [wf, Bool.and_eq_true, decide_eq_true_eq] at hw
+    simp only [size, leaf] at hd
+    have e := Nat.eq_of_mul_eq_mul_left (by omega : 0 < n) hd
+    have l1 := leaf_le_size m t hw.2
+    have r1 := @le_roundUp (size m t) (align m t) (align_pos m t hw.2)
+    simp only [closed]
+    exact dense_closed m t hw.2 (by omega)
+  | .struct ms, hw, hd => by
+    simp only [wf, Bool.and_eq_true] at hw
+    simp only [size, leaf] at hd
+    have l1 := leafAll_le_endOf m ms 0 hw.2
+    have r1 := @le_roundUp (endOf m ms 0) (alignMax m ms) (alignMax_pos m ms)
+    have e : roundUp (endOf m ms 0) (alignMax m ms) = endOf m ms 0 := by omega
+    simp only [closed, Bool.and_eq_true, beq_iff_eq]
+    exact ⟨(roundUp_eq_self_iff (alignMax_pos m ms)).1 e, denseAll_closed m ms 0 hw.2 (by omega)⟩
+theorem denseAll_closed (m : Mode) : ∀ (ts : Tys) (c : Nat), wfAll ts = true →
+    endOf m ts c = c + leafAll ts → closedAll m ts = true
+  | .nil, _, _, _ => rfl
+  | .cons t ts, c, hw, hd => by
+    simp only [wfAll, Bool.and_eq_true] at hw
+    simp only [endOf, leafAll] at hd
+    have s1 := leaf_le_size m t hw.1
+    have r1 := @le_roundUp c (align m t) (align_pos m t hw.1)
+    have e1 := leafAll_le_endOf m ts (roundUp c (align m t) + size m t) hw.2
+    simp only [closedAll, Bool.and_eq_true]
+    exact ⟨dense_closed m t hw.1 (by omega),
+      denseAll_closed m ts (roundUp c (align m t) + size m t) hw.2 (by omega)⟩
+end
+
+mutual
+/-- structural agreement gives identical absolute offsets for every field, at any base address -/
+theorem agree_fields : ∀ (t : Ty), agreeIn t = true → ∀ b, fieldsAt .hlsl t b = fieldsAt .metal t b
+  | .scalar _, _, _ => rfl
+  | .vec _ _, _, _ => rfl
+  | .enum _, _, _ => rfl
+  | .other _, _, _ => rfl
+  | .struct ms, h, b => by
+    simp only [agreeIn, Bool.and_eq_true, beq_iff_eq] at h
+    simp only [fieldsAt]
+    exact agree_members ms h.2 b 0 0 h.1
+  | .arr t n, h, b => by
+    simp only [agreeIn, Bool.or_eq_true, Bool.and_eq_true, beq_iff_eq, decide_eq_true_eq] at h
+    simp only [fieldsAt]
+    rcases h with h0 | ⟨h1, h2⟩
+    · subst h0; rfl
+    · have ih := agree_fields t h2
+      rcases h1 with h1 | h1
+      · have : n = 0 ∨ n = 1 := by omega
+        rcases this with rfl | rfl
+        · rfl
+        · simp [List.range_succ, ih]
+      · simp only [h1, ih]
+theorem agree_members : ∀ (ts : Tys), agreeInAll ts = true → ∀ b cH cM,
+    offsets .hlsl ts cH = offsets .metal ts cM → membersAt .hlsl ts b cH = membersAt .metal ts b cM
+  | .nil, _, _, _, _, _ => rfl
+  | .cons t ts, h, b, cH, cM, ho => by
+    simp only [agreeInAll, Bool.and_eq_true] at h
+    simp only [offsets, List.cons.injEq] at ho
+    simp only [membersAt]
+    have ht := agree_members ts h.2 b _ _ ho.2
+    rw [ho.1] at ht ⊢
+    rw [agree_fields t h.1, ht]
+end
+
+theorem roundUp_mono {x y a : Nat} (h : x ≤ y) : roundUp x a ≤ roundUp y a := by
+  unfold roundUp
+  exact Nat.mul_le_mul_right _ (Nat.div_le_div_right (by omega))
+
+theorem nextMultipleOf_succeeds {a b : Nat} (hb : 0 < b) (h : roundUp a b ≤ u32Max) :
+    nextMultipleOf a b = .ok (roundUp a b) := by
+  unfold nextMultipleOf
+  have hb' : b ≠ 0 := by omega
+  simp only [hb', if_false]
+  by_cases h0 : a % b = 0
+  · simp only [h0, if_true]; rw [roundUp_of_mod_zero hb h0]
+  · simp only [h0, if_false]
+    rw [roundUp_of_mod_pos hb h0] at h ⊢
+    unfold addU32; simp only [h, if_true]
+
+theorem memberStep_succeeds {acc ml : Layout} (ha : 0 < ml.align)
+    (h : roundUp acc.size ml.align + ml.size ≤ u32Max) :
+    memberStep acc ml = .ok ⟨roundUp acc.size ml.align + ml.size, max acc.align ml.align⟩ := by
+  unfold memberStep
+  rw [nextMultipleOf_succeeds ha (by omega)]
+  simp only [addU32, h, if_true]
+
+mutual
+theorem leaf_pos : ∀ t : Ty, wf t = true → 0 < leaf t
+  | .scalar s, h => by simp only [wf] at h; simpa [leaf] using bytes_pos h
+  | .enum u, h => by
+    simp only [wf] at h
+    cases u <;> first | (exact absurd h (by decide)) | (simp [leaf, bytes])
+  | .other _, h => by simp [wf] at h
+  | .vec s n, h => by
+    simp only [wf, Bool.and_eq_true, decide_eq_true_eq] at h
+    simp only [leaf]
+    exact Nat.mul_pos (by omega) (bytes_pos h.1)
+  | .arr t n, h => by
+    simp only [wf, Bool.and_eq_true, decide_eq_true_eq] at h
+    simp only [leaf]
+    exact Nat.mul_pos (by omega) (leaf_pos t h.2)
+  | .struct ms, h => by
+    simp only [wf, Bool.and_eq_true] at h
+    simp only [leaf]
+    cases ms with
+    | nil => simp at h
+    | cons t ts =>
+      simp only [wfAll, Bool.and_eq_true] at h
+      simp only [leafAll]
+      have := leaf_pos t h.2.1
+      omega
+end
+
+theorem le_endOf (m : Mode) (ts : Tys) (c : Nat) (h : wfAll ts = true) : c ≤ endOf m ts c := by
+  have := leafAll_le_endOf m ts c h; omega
+
+mutual
+/-- `get_type_layout` neither panics nor gives up on a type of the grid whose reference size fits `u32`;
+    its size never exceeds the reference size and its alignment is the reference alignment -/
+theorem get_total (m : Mode) : ∀ t : Ty, wf t = true → size m t ≤ u32Max →
+    ∃ l, get m t = .ok l ∧ l.size ≤ size m t ∧ l.align = align m t
+  | .scalar s, hw, _ => by
+    simp only [wf] at hw
+    exact ⟨_, get_scalar m s hw, Nat.le_refl _, rfl⟩
+  | .vec s n, hw, _ => by
+    simp only [wf, Bool.and_eq_true, decide_eq_true_eq] at hw
+    exact ⟨_, get_vec m s n hw.1 hw.2, Nat.le_refl _, rfl⟩
+  | .enum u, hw, _ => by
+    simp only [wf] at hw
+    exact ⟨_, get_enum m u hw, Nat.le_refl _, rfl⟩
+  | .other _, hw, _ => by simp [wf] at hw
+  | .arr t n, hw, hb => by
+    simp only [wf, Bool.and_eq_true, decide_eq_true_eq] at hw
+    simp only [size] at hb
+    have hst : size m t ≤ roundUp (size m t) (align m t) := le_roundUp (align_pos m t hw.2)
+    have hpos : 0 < size m t := Nat.lt_of_lt_of_le (leaf_pos t hw.2) (leaf_le_size m t hw.2)
+    have h1 : 1 * roundUp (size m t) (align m t) ≤ n * roundUp (size m t) (align m t) :=
+      Nat.mul_le_mul_right _ hw.1
+    have h2 : n * 1 ≤ n * roundUp (size m t) (align m t) := Nat.mul_le_mul_left _ (by omega)
+    obtain ⟨l', g, s', a'⟩ := get_total m t hw.2 (by omega)
+    have h3 : l'.size * n ≤ n * roundUp (size m t) (align m t) := by
+      rw [Nat.mul_comm]; exact Nat.mul_le_mul_left _ (by omega)
+    refine ⟨⟨l'.size * n, l'.align⟩, ?_, by simpa [size] using h3, by simpa [align] using a'⟩
+    simp only [Model.Layout.get, g]
+    rw [array_ops_pinned]
+    have hn : n ≤ u32Max := by omega
+    have hm : l'.size * n ≤ u32Max := by omega
+    simp only [hn, if_true, mulU32, hm]
+  | .struct ms, hw, hb => by
+    simp only [wf, Bool.and_eq_true] at hw
+    simp only [size] at hb
+    have r := @le_roundUp (endOf m ms 0) (alignMax m ms) (alignMax_pos m ms)
+    obtain ⟨l, g, s', a'⟩ := getMembers_total m ms ⟨structInit.1, structInit.2⟩ 0 hw.2
+      (Nat.le_refl _) (by omega) (by decide)
+    refine ⟨l, ?_, by simp only [size]; omega, ?_⟩
+    · simp only [Model.Layout.get, g]; rw [final_ops_pinned]
+    · simp only [align]; rw [a']
+      have := alignMax_pos m ms
+      show max 1 (alignMax m ms) = alignMax m ms
+      omega
+theorem getMembers_total (m : Mode) : ∀ (ts : Tys) (acc : Layout) (cur : Nat), wfAll ts = true →
+    acc.size ≤ cur → endOf m ts cur ≤ u32Max → 1 ≤ acc.align →
+    ∃ l, getMembers m ts acc = .ok l ∧ l.size ≤ endOf m ts cur ∧ l.align = max acc.align (alignMax m ts)
+  | .nil, acc, cur, _, hc, _, ha => by
+    refine ⟨acc, rfl, by simpa [endOf] using hc, ?_⟩
+    simp only [alignMax]; omega
+  | .cons t ts, acc, cur, hw, hc, hb, ha => by
+    simp only [wfAll, Bool.and_eq_true] at hw
+    simp only [endOf] at hb
+    have e1 := le_endOf m ts (roundUp cur (align m t) + size m t) hw.2
+    have r1 := @le_roundUp cur (align m t) (align_pos m t hw.1)
+    obtain ⟨ml, g, s', a'⟩ := get_total m t hw.1 (by omega)
+    have hpos : 0 < ml.align := by rw [a']; exact align_pos m t hw.1
+    have mono : roundUp acc.size ml.align ≤ roundUp cur (align m t) := by
+      rw [a']; exact roundUp_mono hc
+    have hstep := @memberStep_succeeds acc ml hpos (by omega)
+    obtain ⟨l, g2, s2, a2⟩ := getMembers_total m ts
+      ⟨roundUp acc.size ml.align + ml.size, max acc.align ml.align⟩
+      (roundUp cur (align m t) + size m t) hw.2 (by simp only []; omega) hb (by simp only []; omega)
+    refine ⟨l, ?_, by simpa [endOf] using s2, ?_⟩
+    · simp only [getMembers, g]; rw [member_ops_pinned, hstep]; exact g2
+    · rw [a2]; simp only [alignMax, a']; omega
+end
+
+/-- validation of a type of the grid whose reference sizes fit `u32` always reaches the comparison -/
+theorem checkOne_total (t : Ty) (hw : wf t = true) (hh : size .hlsl t ≤ u32Max)
+    (hm : size .metal t ≤ u32Max) : ∃ r, checkOne t = .ok r := by
+  obtain ⟨lh, g1, s1, a1⟩ := get_total .hlsl t hw hh
+  obtain ⟨lm, g2, s2, a2⟩ := get_total .metal t hw hm
+  have p1 := align_pos .hlsl t hw
+  have p2 := align_pos .metal t hw
+  have b1 : roundUp lh.size lh.align ≤ u32Max := by
+    have := @roundUp_mono _ _ (align .hlsl t) s1
+    rw [roundUp_of_mod_zero p1 (size_mod_align _ t hw)] at this
+    rw [a1]; omega
+  have b2 : roundUp lm.size lm.align ≤ u32Max := by
+    have := @roundUp_mono _ _ (align .metal t) s2
+    rw [roundUp_of_mod_zero p2 (size_mod_align _ t hw)] at this
+    rw [a2]; omega
+  unfold checkOne
+  simp only [g1, g2]
+  rw [top_ops_pinned, top_ops_pinned, nextMultipleOf_succeeds (by rw [a1]; exact p1) b1,
+    nextMultipleOf_succeeds (by rw [a2]; exact p2) b2]
+  simp only []
+  split <;> exact ⟨_, rfl⟩
 
 end RsslVerif.Lemmas.Layout
